@@ -30,6 +30,8 @@ func init() {
 }
 
 func rulesC02(c *Ctx) {
+	// ast.Parse hands out a private query: the scanners write the paging defaults back into it
+	ruleSharedInstance(c, "C02.FRESHQUERY")
 	rulePagingArith(c, "C02.ARITH", "boltz")
 	c.Floor("C02.ARITH", 1)
 	rulePagingDefaults(c, "C02.DEFAULTS", "boltz")
